@@ -27,6 +27,11 @@ type Op struct {
 	Kind  string `json:"k"` // set get del clear stats
 	Key   int    `json:"key"`
 	Yield bool   `json:"y,omitempty"` // runtime.Gosched() before the call
+	// Shared (sets only), when 1..3: the value is one of three per-key byte
+	// slices that ALL goroutines of the case use (a caller re-storing a value
+	// it holds, or storing one read-only slice from several goroutines); the
+	// cache must only read the value it is given.
+	Shared int `json:"sh,omitempty"`
 }
 
 // Case is a concurrent program.
@@ -187,6 +192,12 @@ func execute(c Case) (res execResult, err error) {
 		conf.MaxSize = c.MaxSize
 	}
 	ch := cache.New(conf)
+	shared := make([][3][]byte, max(1, c.Keys))
+	for k := range shared {
+		for slot := range shared[k] {
+			shared[k][slot] = makeValue(keyName(k), 100+slot, 0)
+		}
+	}
 
 	var clock atomic.Int64
 	var start sync.WaitGroup
@@ -217,6 +228,9 @@ func execute(c Case) (res execResult, err error) {
 				switch op.Kind {
 				case "set":
 					v := makeValue(key, g, seq)
+					if op.Shared > 0 {
+						v = shared[op.Key%len(shared)][(op.Shared-1)%3]
+					}
 					in.val = string(v)
 					out.replaced = ch.Set([]byte(key), v)
 				case "get":
@@ -428,6 +442,9 @@ var programProp = vp.Register(vp.Prop[Case]{
 					Kind:  rapid.SampledFrom(kinds).Draw(t, "kind"),
 					Key:   rapid.IntRange(0, c.Keys-1).Draw(t, "key"),
 					Yield: rapid.IntRange(0, 5).Draw(t, "yield") == 0,
+				}
+				if prog[j].Kind == "set" && rapid.IntRange(0, 3).Draw(t, "shared") == 0 {
+					prog[j].Shared = rapid.IntRange(1, 3).Draw(t, "slot")
 				}
 			}
 			c.Progs = append(c.Progs, prog)
